@@ -148,7 +148,87 @@ func ruleSendFrameFlag(r *Run) {
 	if undec {
 		return
 	}
+	// a helper that compresses the frame and sets the flag itself (compressFrame): its call counts as "stores 1"
+	// when, inside it, every path from its entry and from every allocation of a []byte (its own or a callee's) to a
+	// return that may carry a nil error passes a store of 1 into byte 0
+	isAllocIn := func(x ssa.Instruction) bool {
+		if mk, ok := x.(*ssa.MakeSlice); ok && isByteSliceType(mk.Type()) {
+			return true
+		}
+		c, ok := x.(ssa.CallInstruction)
+		if !ok {
+			return false
+		}
+		if v, isV := x.(ssa.Value); !isV || !isByteSliceType(v.Type()) {
+			return false
+		}
+		return p.callMay(c, func(y ssa.Instruction) bool {
+			mk, ok := y.(*ssa.MakeSlice)
+			return ok && isByteSliceType(mk.Type())
+		})
+	}
+	helperStores1 := func(g *ssa.Function) bool {
+		if g == nil || !p.InModule(g) || len(g.Blocks) == 0 {
+			return false
+		}
+		is1 := func(x ssa.Instruction) bool {
+			st, ok := x.(*ssa.Store)
+			if !ok {
+				return false
+			}
+			ia, ok := st.Addr.(*ssa.IndexAddr)
+			if !ok || !isByteSliceType(ia.X.Type()) {
+				return false
+			}
+			k, ok := constInt(ia.Index)
+			v, ok2 := constInt(st.Val)
+			return ok && ok2 && k == 0 && v == 1
+		}
+		if len(instrsOf(g, is1)) == 0 {
+			return false
+		}
+		ei := errResultIndex(g)
+		okRet := func(x ssa.Instruction) bool {
+			rt, isR := x.(*ssa.Return)
+			if !isR {
+				return false
+			}
+			if ei >= 0 && ei < len(rt.Results) && p.certainlyNonNilError(rt.Results[ei], 0) {
+				return false
+			}
+			if ei >= 0 && p.returnUnderErrTest(rt) {
+				return false
+			}
+			return true
+		}
+		if w, _ := (pathQuery{fn: g, target: okRet, barrier: is1}).find(); w != nil {
+			return false
+		}
+		for _, a := range instrsOf(g, isAllocIn) {
+			if w, _ := (pathQuery{fn: g, start: a, target: okRet, barrier: is1}).find(); w != nil {
+				return false
+			}
+		}
+		return true
+	}
+	lifted1 := map[ssa.Instruction]bool{}
+	eachInstr(fn, func(in ssa.Instruction) {
+		c, ok := in.(ssa.CallInstruction)
+		if !ok || c.Common().IsInvoke() {
+			return
+		}
+		if g := c.Common().StaticCallee(); g != nil && helperStores1(g) {
+			lifted1[in] = true
+		}
+	})
 	storeOf := func(in ssa.Instruction, vals ...int64) bool {
+		if lifted1[in] {
+			for _, v := range vals {
+				if v == 1 {
+					return true
+				}
+			}
+		}
 		for _, s := range stores {
 			if ssa.Instruction(s.in) == in {
 				for _, v := range vals {
@@ -165,8 +245,13 @@ func ruleSendFrameFlag(r *Run) {
 	// (A) a fresh frame buffer gets its flag byte after it was made
 	nA := 0
 	eachInstr(fn, func(in ssa.Instruction) {
-		mk, ok := in.(*ssa.MakeSlice)
-		if !ok || !isByteSliceType(mk.Type()) {
+		var mk ssa.Value
+		if m, ok := in.(*ssa.MakeSlice); ok && isByteSliceType(m.Type()) {
+			mk = m
+		} else if isAllocIn(in) && !lifted1[in] {
+			mk = in.(ssa.Value)
+		}
+		if mk == nil {
 			return
 		}
 		// does this buffer reach the write?
@@ -177,7 +262,7 @@ func ruleSendFrameFlag(r *Run) {
 					continue
 				}
 				for _, o := range p.origins(a, originOpts{throughSlice: true, throughAppend: true, local: true}) {
-					if o == ssa.Value(mk) {
+					if o == mk {
 						relevant = true
 					}
 				}
@@ -186,7 +271,7 @@ func ruleSendFrameFlag(r *Run) {
 					for _, ref := range *c.Referrers() {
 						if st, ok := ref.(*ssa.Store); ok && st.Addr == ssa.Value(c) {
 							for _, o := range p.origins(st.Val, originOpts{throughSlice: true, throughAppend: true, local: true}) {
-								if o == ssa.Value(mk) {
+								if o == mk {
 									relevant = true
 								}
 							}
@@ -228,6 +313,9 @@ func ruleSendFrameFlag(r *Run) {
 	is1 := func(x ssa.Instruction) bool { return storeOf(x, 1, -1) }
 	for _, m := range markers {
 		m := m
+		if lifted1[m] {
+			continue // the compressing helper sets the flag itself
+		}
 		before, _ := (pathQuery{fn: fn, target: func(x ssa.Instruction) bool { return x == m }, barrier: is1}).find()
 		after, _ := (pathQuery{fn: fn, start: m, target: isSink, barrier: is1}).find()
 		if before != nil && after != nil {
